@@ -40,6 +40,132 @@ theorem AdvS.trans {a b c : List STEntry} (h1 : AdvS a b) (h2 : AdvS b c) : AdvS
 theorem AdvS.get {s s' : List STEntry} (h : AdvS s s') (i : Nat) (e : STEntry) (he : s[i]? = some e) :
     ∃ e', s'[i]? = some e' ∧ EntAdv e e' := h.2 i e he
 
+/-! ### the deferred stack: bookkeeping that bounds the `while let Some(i) = self.deferred.pop()` loop -/
+
+/-- a blank-node subject whose label is not (yet) in the labels added while writing -/
+def notLab (labx : List Str) (e : STEntry) : Bool :=
+  match e.s with
+  | .bnode l => !labx.contains l
+  | _ => false
+
+/-- how many entries could still be deferred: every push adds the entry's label to `labx` -/
+def mu (w : W) : Nat := (w.sts.filter (notLab w.labx)).length
+
+/-- bound on the remaining iterations of the deferred loop -/
+def cost (w : W) : Nat := w.deferred.length + mu w
+
+/-- every index on the stack is an entry of the table whose blank-node label was added to `labx` when it was pushed,
+and no index is on the stack twice -/
+def Good (w : W) : Prop :=
+  (∀ i ∈ w.deferred, ∃ e l, w.sts[i]? = some e ∧ e.s = Term.bnode l ∧ l ∈ w.labx) ∧ w.deferred.Nodup
+
+theorem mu_le (w : W) : mu w ≤ w.sts.length := List.length_filter_le _ _
+
+theorem filter_mapIdx_len {α : Type} (p : α → Bool) : ∀ (l : List α) (f : Nat → α → α), (∀ j a, p (f j a) = p a) →
+    ((l.mapIdx f).filter p).length = (l.filter p).length
+  | [], _, _ => by simp
+  | a :: l, f, h => by
+    rw [List.mapIdx_cons, List.filter_cons, List.filter_cons, h 0 a]
+    have ih := filter_mapIdx_len p l (fun i => f (i + 1)) (fun j a => h (j + 1) a)
+    split <;> simp [ih]
+
+theorem filter_len_mono {α : Type} (p p' : α → Bool) (himp : ∀ x, p' x = true → p x = true) :
+    ∀ l : List α, (l.filter p').length ≤ (l.filter p).length
+  | [] => by simp
+  | y :: ys => by
+    have ih := filter_len_mono p p' himp ys
+    by_cases h1 : p' y = true
+    · have h2 := himp y h1
+      simp only [List.filter_cons, h1, h2, ↓reduceIte, List.length_cons]
+      omega
+    · by_cases h2 : p y = true
+      · simp only [List.filter_cons, h1, h2, ↓reduceIte, List.length_cons, Bool.false_eq_true]
+        omega
+      · simp only [List.filter_cons, h1, h2, Bool.false_eq_true, ↓reduceIte]
+        exact ih
+
+/-- a stricter filter that drops a counted element at some index counts at least one less -/
+theorem filter_lt_of_drop {α : Type} (p p' : α → Bool) (himp : ∀ x, p' x = true → p x = true) :
+    ∀ (l : List α) (i : Nat) (a : α),
+    l[i]? = some a → p a = true → p' a = false → (l.filter p').length + 1 ≤ (l.filter p).length
+  | [], _, _, h, _, _ => by simp at h
+  | x :: l, i, a, h, hp, hp' => by
+    cases i with
+    | zero =>
+      simp only [List.getElem?_cons_zero, Option.some.injEq] at h
+      subst h
+      have := filter_len_mono p p' himp l
+      simp only [List.filter_cons, hp, hp', ↓reduceIte, List.length_cons, Bool.false_eq_true]
+      omega
+    | succ i =>
+      simp only [List.getElem?_cons_succ] at h
+      have ih := filter_lt_of_drop p p' himp l i a h hp hp'
+      by_cases h1 : p' x = true
+      · have h2 := himp x h1
+        simp only [List.filter_cons, h1, h2, ↓reduceIte, List.length_cons]
+        omega
+      · by_cases h2 : p x = true
+        · simp only [List.filter_cons, h1, h2, ↓reduceIte, List.length_cons, Bool.false_eq_true]
+          omega
+        · simp only [List.filter_cons, h1, h2, Bool.false_eq_true, ↓reduceIte]
+          exact ih
+
+theorem cmp_bnode_eq (t : Term) (l : Str) (h : Term.termCmp t (.bnode l) = .eq) : t = .bnode l := by
+  cases t with
+  | bnode a =>
+    simp only [Term.termCmp] at h
+    by_cases hal : a = l
+    · rw [hal]
+    · exact absurd h (SophiaProofs.strCmp_ne_of_ne hal)
+  | _ => simp [Term.termCmp, Term.kind, Term.Kind.rank, Nat.compare_eq_ite_lt] at h
+
+theorem findSt_spec (w : W) (t : Term) (i : Nat) (h : w.findSt t = some i) :
+    ∃ e, w.sts[i]? = some e ∧ Term.termCmp e.s t = .eq := by
+  unfold W.findSt at h
+  have := List.find?_some h
+  simp only [Bool.and_eq_true] at this
+  have h3 := this.2
+  split at h3
+  · next e he => exact ⟨e, he, by simpa using h3⟩
+  · cases h3
+
+/-- the push at the nesting cap keeps the stack discipline and pays for itself -/
+theorem push_good (w : W) (i : Nat) (l : Str) (hfind : w.findSt (.bnode l) = some i)
+    (hl : w.labx.contains l = false) (hg : Good w) :
+    Good { w with deferred := i :: w.deferred, labx := l :: w.labx } ∧
+      cost { w with deferred := i :: w.deferred, labx := l :: w.labx } ≤ cost w := by
+  obtain ⟨e, he, hcmp⟩ := findSt_spec w _ i hfind
+  have hes : e.s = .bnode l := cmp_bnode_eq _ _ hcmp
+  refine ⟨⟨?_, ?_⟩, ?_⟩
+  · intro j hj
+    rcases List.mem_cons.mp hj with rfl | hj'
+    · exact ⟨e, l, he, hes, List.mem_cons_self⟩
+    · obtain ⟨e', l', he', hs', hl'⟩ := hg.1 j hj'
+      exact ⟨e', l', he', hs', List.mem_cons_of_mem _ hl'⟩
+  · refine List.nodup_cons.mpr ⟨?_, hg.2⟩
+    intro hi
+    obtain ⟨e', l', he', hs', hl'⟩ := hg.1 i hi
+    rw [he] at he'
+    cases he'
+    rw [hes] at hs'
+    cases hs'
+    have : w.labx.contains l = true := List.contains_iff_mem.mpr hl'
+    rw [hl] at this
+    cases this
+  · show (i :: w.deferred).length + (w.sts.filter (notLab (l :: w.labx))).length ≤ w.deferred.length + (w.sts.filter (notLab w.labx)).length
+    have hdrop := filter_lt_of_drop (notLab w.labx) (notLab (l :: w.labx)) (by
+        intro x hx
+        unfold notLab at hx ⊢
+        split at hx
+        · next l2 hl2 =>
+          simp only [List.contains_cons, Bool.not_or, Bool.and_eq_true] at hx
+          exact hx.2
+        · cases hx) w.sts i e he
+      (by unfold notLab; rw [hes]; simp only [hl]; rfl)
+      (by unfold notLab; rw [hes]; simp)
+    simp only [List.length_cons]
+    omega
+
 /-- writer state after some steps: subject table advanced, graph range unchanged -/
 structure Adv (w w' : W) : Prop where
   sts : AdvS w.sts w'.sts
@@ -49,13 +175,19 @@ structure Adv (w w' : W) : Prop where
   dsuf : ∃ pre, w'.deferred = pre ++ w.deferred
   /-- `fault` is never cleared -/
   flt : w.fault = true → w'.fault = true
+  /-- the stack discipline is kept and the loop bound does not grow -/
+  good : Good w → Good w' ∧ cost w' ≤ cost w
 
-theorem Adv.refl (w : W) : Adv w w := ⟨AdvS.refl _, rfl, rfl, ⟨[], rfl⟩, fun h => h⟩
+theorem Adv.refl (w : W) : Adv w w := ⟨AdvS.refl _, rfl, rfl, ⟨[], rfl⟩, fun h => h, fun h => ⟨h, Nat.le_refl _⟩⟩
 theorem Adv.trans {a b c : W} (h1 : Adv a b) (h2 : Adv b c) : Adv a c := by
-  refine ⟨h1.sts.trans h2.sts, h2.lo.trans h1.lo, h2.hi.trans h1.hi, ?_, fun h => h2.flt (h1.flt h)⟩
-  obtain ⟨p1, e1⟩ := h1.dsuf
-  obtain ⟨p2, e2⟩ := h2.dsuf
-  exact ⟨p2 ++ p1, by rw [e2, e1, List.append_assoc]⟩
+  refine ⟨h1.sts.trans h2.sts, h2.lo.trans h1.lo, h2.hi.trans h1.hi, ?_, fun h => h2.flt (h1.flt h), ?_⟩
+  · obtain ⟨p1, e1⟩ := h1.dsuf
+    obtain ⟨p2, e2⟩ := h2.dsuf
+    exact ⟨p2 ++ p1, by rw [e2, e1, List.append_assoc]⟩
+  · intro hg
+    obtain ⟨g1, c1⟩ := h1.good hg
+    obtain ⟨g2, c2⟩ := h2.good g1
+    exact ⟨g2, Nat.le_trans c2 c1⟩
 
 /-- the same without the claim on `deferred` (`write_graph` pops what the writers pushed) -/
 structure Adv0 (w w' : W) : Prop where
@@ -71,8 +203,12 @@ theorem Adv0.trans {a b c : W} (h1 : Adv0 a b) (h2 : Adv0 b c) : Adv0 a c :=
 
 /-- a step that does not touch the table, the range and the deferred stack, and does not clear `fault` -/
 theorem Adv.of_eq {w w' : W} (h1 : w'.sts = w.sts) (h2 : w'.lo = w.lo) (h3 : w'.hi = w.hi)
-    (h4 : w'.deferred = w.deferred := by rfl) (h5 : w.fault = true → w'.fault = true := by exact fun h => h) : Adv w w' :=
-  ⟨by rw [h1]; exact AdvS.refl _, h2, h3, ⟨[], by rw [h4]; rfl⟩, h5⟩
+    (h4 : w'.deferred = w.deferred := by rfl) (h5 : w.fault = true → w'.fault = true := by exact fun h => h)
+    (h6 : w'.labx = w.labx := by rfl) : Adv w w' :=
+  ⟨by rw [h1]; exact AdvS.refl _, h2, h3, ⟨[], by rw [h4]; rfl⟩, h5, fun hg => by
+    unfold Good cost mu at *
+    rw [h1, h4, h6]
+    exact ⟨hg, Nat.le_refl _⟩⟩
 
 theorem adv_write (w : W) (s : Str) : Adv w (w.write s) := Adv.of_eq rfl rfl rfl
 theorem adv_writeS (w : W) (s : String) : Adv w (w.writeS s) := Adv.of_eq rfl rfl rfl
@@ -102,8 +238,20 @@ theorem advS_setDone (s : List STEntry) (i : Nat) :
   · simp only [hj]
     exact ⟨_, rfl, EntAdv.refl e⟩
 
-theorem adv_setDone (w : W) (i : Nat) : Adv w (w.setDone i) :=
-  ⟨advS_setDone w.sts i, rfl, rfl, ⟨[], rfl⟩, fun h => h⟩
+theorem adv_setDone (w : W) (i : Nat) : Adv w (w.setDone i) := by
+  refine ⟨advS_setDone w.sts i, rfl, rfl, ⟨[], rfl⟩, fun h => h, fun hg => ⟨⟨?_, hg.2⟩, ?_⟩⟩
+  · intro j hj
+    obtain ⟨e, l, he, hs, hl⟩ := hg.1 j hj
+    obtain ⟨e', he', hadv⟩ := (advS_setDone w.sts i).2 j e he
+    exact ⟨e', l, he', hadv.2.1.trans hs, hl⟩
+  · show (w.setDone i).deferred.length + mu (w.setDone i) ≤ w.deferred.length + mu w
+    have : mu (w.setDone i) = mu w := by
+      unfold mu W.setDone
+      exact filter_mapIdx_len _ _ _ (fun j a => by
+        unfold notLab
+        by_cases h : (j == i) = true <;> simp [h])
+    rw [this]
+    exact Nat.le_refl _
 
 theorem adv_foldl {α : Type} (g : W → α → W) (h : ∀ w x, Adv w (g w x)) (xs : List α) (w : W) :
     Adv w (xs.foldl g w) := by
@@ -159,7 +307,11 @@ theorem writers_adv (env : Env) : ∀ f, WritersAdv env f
               · split
                 · split
                   · refine Adv.trans ?_ (adv_write _ _)
-                    exact ⟨AdvS.refl _, rfl, rfl, ⟨[_], rfl⟩, fun h => h⟩
+                    refine ⟨AdvS.refl _, rfl, rfl, ⟨[_], rfl⟩, fun h => h, ?_⟩
+                    rename_i hnl hfind
+                    refine push_good w _ _ hfind ?_
+                    simp only [Bool.or_eq_true, not_or, isLabelled] at hnl
+                    simpa using hnl.2
                   · exact Adv.refl _
                 · have h1 : Adv w (({ w with nesting := w.nesting + 1 } : W).writeS "[") :=
                     (Adv.of_eq (w := w) (w' := { w with nesting := w.nesting + 1 }) rfl rfl rfl).trans (adv_writeS _ _)
@@ -317,60 +469,72 @@ theorem adv0_drain (env : Env) (fuel : Nat) : ∀ (n : Nat) (w : W), Adv0 w (dra
         exact a0.trans ((((adv_writeTree env fuel _ e.s).trans (adv_setDone _ i)).weak).trans (adv0_drain env fuel n _))
       · exact ⟨AdvS.refl _, rfl, rfl, fun _ => rfl⟩
 
-/-- the deferred loop: unless it runs out of its iteration bound or meets an index outside the table (`fault`), it
-ends with an empty stack, and every entry that was on the stack — each handed to `write_tree` — is `Done` -/
-theorem drain_done (env : Env) (fuel : Nat) : ∀ (n : Nat) (w : W),
-    (drainDeferred env fuel n w).fault = true ∨
-    ((drainDeferred env fuel n w).deferred = [] ∧
-      ∀ i ∈ w.deferred, ∀ e, w.sts[i]? = some e → DoneAt (drainDeferred env fuel n w) i e.s)
-  | 0, w => by
+theorem good_of_empty (w : W) (h : w.deferred = []) : Good w := by
+  refine ⟨?_, ?_⟩
+  · rw [h]; intro i hi; cases hi
+  · rw [h]; exact List.nodup_nil
+
+theorem cost_le_of_empty (w : W) (h : w.deferred = []) : cost w ≤ w.sts.length := by
+  show w.deferred.length + mu w ≤ w.sts.length
+  rw [h]
+  simpa using mu_le w
+
+/-- the deferred loop, from a state that keeps the stack discipline (`Good`) and whose bound covers the remaining
+work (`cost w < n`): it never gives up (neither the iteration bound nor an index outside the table is met), it ends
+with an empty stack, and every entry that was on the stack — each handed to `write_tree` — is `Done` -/
+theorem drain_total (env : Env) (fuel : Nat) : ∀ (n : Nat) (w : W), Good w → cost w < n →
+    (drainDeferred env fuel n w).deferred = [] ∧
+      ∀ i ∈ w.deferred, ∀ e, w.sts[i]? = some e → DoneAt (drainDeferred env fuel n w) i e.s
+  | 0, _, _, hc => by omega
+  | n + 1, w, hg, hc => by
     unfold drainDeferred
     split
-    · next he =>
-      have : w.deferred = [] := by simpa using he
-      exact Or.inr ⟨this, by rw [this]; intro i hi; cases hi⟩
-    · exact Or.inl rfl
-  | n + 1, w => by
-    unfold drainDeferred
-    split
-    · next hd => exact Or.inr ⟨hd, by rw [hd]; intro i hi; cases hi⟩
+    · next hd => exact ⟨hd, by rw [hd]; intro i hi; cases hi⟩
     · next i rest hd =>
       dsimp only
-      split
-      · next e he =>
-        -- one iteration: pop `i`, write its tree, mark it
-        have hw : Adv { w with deferred := rest } ((writeTree env fuel { w with deferred := rest } e.s).setDone i) :=
-          (adv_writeTree env fuel _ e.s).trans (adv_setDone _ i)
-        have hdone : DoneAt ((writeTree env fuel { w with deferred := rest } e.s).setDone i) i e.s := by
-          obtain ⟨e', he', _, hs', _⟩ := (adv_writeTree env fuel { w with deferred := rest } e.s).sts.get i e he
-          have := doneAt_setDone (writeTree env fuel { w with deferred := rest } e.s) i e' he'
-          rw [hs'] at this
-          exact this
-        rcases drain_done env fuel n ((writeTree env fuel { w with deferred := rest } e.s).setDone i) with hf | ⟨hemp, hall⟩
-        · exact Or.inl hf
-        · refine Or.inr ⟨hemp, ?_⟩
-          intro j hj ej hej
-          rw [hd] at hj
-          by_cases hji : j = i
-          · subst hji
-            have : ej = e := by
-              have h' : ({ w with deferred := rest } : W).sts[j]? = some ej := hej
-              rw [he] at h'
-              exact (Option.some.inj h').symm
-            subst this
-            exact hdone.adv (adv0_drain env fuel n _)
-          · have hjr : j ∈ rest := by
-              rcases List.mem_cons.mp hj with h | h
-              · exact absurd h hji
-              · exact h
-            obtain ⟨pre, hpre⟩ := hw.dsuf
-            have hj1 : j ∈ ((writeTree env fuel { w with deferred := rest } e.s).setDone i).deferred := by
-              rw [hpre]; exact List.mem_append_right _ hjr
-            obtain ⟨e1, he1, _, hs1, _⟩ := hw.sts.get j ej hej
-            have := hall j hj1 e1 he1
-            rw [hs1] at this
-            exact this
-      · exact Or.inl rfl
+      have hg0 : Good { w with deferred := rest } := by
+        refine ⟨fun j hj => ?_, ?_⟩
+        · exact hg.1 j (by rw [hd]; exact List.mem_cons_of_mem _ hj)
+        · have := hg.2
+          rw [hd] at this
+          exact (List.nodup_cons.mp this).2
+      have hc0 : cost { w with deferred := rest } + 1 = cost w := by
+        show rest.length + mu { w with deferred := rest } + 1 = w.deferred.length + mu w
+        have : mu { w with deferred := rest } = mu w := rfl
+        rw [this, hd, List.length_cons]
+        omega
+      obtain ⟨e, l, he, _, _⟩ := hg.1 i (by rw [hd]; exact List.mem_cons_self)
+      have he0 : ({ w with deferred := rest } : W).sts[i]? = some e := he
+      rw [he0]
+      dsimp only
+      have hw : Adv { w with deferred := rest } ((writeTree env fuel { w with deferred := rest } e.s).setDone i) :=
+        (adv_writeTree env fuel _ e.s).trans (adv_setDone _ i)
+      have hdone : DoneAt ((writeTree env fuel { w with deferred := rest } e.s).setDone i) i e.s := by
+        obtain ⟨e', he', _, hs', _⟩ := (adv_writeTree env fuel { w with deferred := rest } e.s).sts.get i e he0
+        have := doneAt_setDone (writeTree env fuel { w with deferred := rest } e.s) i e' he'
+        rw [hs'] at this
+        exact this
+      obtain ⟨hg1, hc1⟩ := hw.good hg0
+      obtain ⟨hemp, hall⟩ := drain_total env fuel n _ hg1 (by omega)
+      refine ⟨hemp, ?_⟩
+      intro j hj ej hej
+      rw [hd] at hj
+      by_cases hji : j = i
+      · subst hji
+        rw [he] at hej
+        cases hej
+        exact hdone.adv (adv0_drain env fuel n _)
+      · have hjr : j ∈ rest := by
+          rcases List.mem_cons.mp hj with h | h
+          · exact absurd h hji
+          · exact h
+        obtain ⟨pre, hpre⟩ := hw.dsuf
+        have hj1 : j ∈ ((writeTree env fuel { w with deferred := rest } e.s).setDone i).deferred := by
+          rw [hpre]; exact List.mem_append_right _ hjr
+        obtain ⟨e1, he1, _, hs1, _⟩ := hw.sts.get j ej hej
+        have := hall j hj1 e1 he1
+        rw [hs1] at this
+        exact this
 
 theorem adv_writeGraph (env : Env) (fuel : Nat) (w : W) : Adv0 w (writeGraph env fuel w) := by
   unfold writeGraph
@@ -388,16 +552,21 @@ theorem writeGraph_roots_done (env : Env) (fuel : Nat) (w : W) (i : Nat) (e : ST
   unfold writeGraph
   exact h1.adv (adv0_drain env fuel _ _)
 
-/-- `write_graph` and the blank nodes deferred at the nesting cap: unless `fault`, nothing is left on the stack and
-every entry deferred while the Roots were written (and, through `drain_done`, while deferred trees were written) is
-`Done`: it was described by a `write_tree` of its own -/
-theorem writeGraph_deferred_done (env : Env) (fuel : Nat) (w : W) :
-    (writeGraph env fuel w).fault = true ∨
-    ((writeGraph env fuel w).deferred = [] ∧
+/-- `write_graph` from a state with an empty deferred stack, and the blank nodes deferred at the nesting cap:
+nothing is left on the stack, and every entry deferred while the Roots were written (and, through `drain_total`,
+while deferred trees were written) is `Done`: it was described by a `write_tree` of its own.  No `fault` escape:
+the loop's iteration bound `sts.length + 1` is proved sufficient and every stacked index is inside the table. -/
+theorem writeGraph_deferred_done (env : Env) (fuel : Nat) (w : W) (h0 : w.deferred = []) :
+    (writeGraph env fuel w).deferred = [] ∧
       ∀ i ∈ (writeRoots env fuel w).deferred, ∀ e, (writeRoots env fuel w).sts[i]? = some e →
-        DoneAt (writeGraph env fuel w) i e.s) := by
+        DoneAt (writeGraph env fuel w) i e.s := by
+  have hg : Good w := good_of_empty w h0
+  have hc : cost w ≤ w.sts.length := cost_le_of_empty w h0
+  have ha := adv_writeRoots env fuel w
+  obtain ⟨hg1, hc1⟩ := ha.good hg
+  have hlen : (writeRoots env fuel w).sts.length = w.sts.length := ha.sts.1
   unfold writeGraph
-  exact drain_done env fuel _ _
+  exact drain_total env fuel _ _ hg1 (by omega)
 
 /-- no `Root` is left among the first `w.hi` entries of the subject table -/
 def NoRootBelow (w : W) : Prop := ∀ (i : Nat) (e : STEntry), i < w.hi → w.sts[i]? = some e → e.st ≠ .root
@@ -828,14 +997,8 @@ theorem serialize_roots_done (cfg : Cfg) (quads : List Quad) (lists : Lists) (st
 
 /-! ### nothing stays deferred -/
 
-/-- the deferred stack is empty (or the writer gave up: `fault`) -/
-def Drained (w : W) : Prop := w.fault = true ∨ w.deferred = []
-
-theorem writeGraph_drained (env : Env) (fuel : Nat) (w : W) : Drained (writeGraph env fuel w) :=
-  (writeGraph_deferred_done env fuel w).imp id (·.1)
-
-theorem namedGraphs_drained (env : Env) (fuel : Nat) : ∀ (n : Nat) (w : W), Drained w →
-    Drained (writeNamedGraphs env fuel n w)
+theorem namedGraphs_drained (env : Env) (fuel : Nat) : ∀ (n : Nat) (w : W), w.deferred = [] →
+    (writeNamedGraphs env fuel n w).deferred = []
   | 0, w, h => by unfold writeNamedGraphs; exact h
   | n + 1, w, h => by
     unfold writeNamedGraphs
@@ -843,22 +1006,64 @@ theorem namedGraphs_drained (env : Env) (fuel : Nat) : ∀ (n : Nat) (w : W), Dr
     · exact h
     · dsimp only
       split
-      · exact Or.inl rfl
-      · exact namedGraphs_drained env fuel n _ (writeGraph_drained env fuel _)
+      · exact h
+      · next g _ =>
+        apply namedGraphs_drained env fuel n
+        -- the steps before `write_graph` (GRAPH, the graph name, `{`) may push, `write_graph` drains everything
+        have hT := (writers_adv env fuel).1
+        let c := ((w.sts.drop w.hi).takeWhile (fun e => gEq (match w.sts[w.hi]? with | some e => e.g | none => none) e.g)).length
+        let W1 : W := { w with lo := w.hi, hi := w.hi + c }
+        let W2 : W := ((writeTerm env fuel (W1.newline.writeS "GRAPH ") .other g).writeS " {").more env
+        have a12 : Adv W1 W2 :=
+          (adv_newline _).trans ((adv_writeS _ _).trans ((hT _ _ _).trans ((adv_writeS _ _).trans (adv_more _ _))))
+        have hg1 : Good W1 := good_of_empty W1 h
+        have hc1 : cost W1 ≤ W1.sts.length := cost_le_of_empty W1 h
+        obtain ⟨hg2, hc2⟩ := a12.good hg1
+        have l2 : W2.sts.length = W1.sts.length := a12.sts.1
+        have ha := adv_writeRoots env fuel W2
+        obtain ⟨hg3, hc3⟩ := ha.good hg2
+        have l3 : (writeRoots env fuel W2).sts.length = W2.sts.length := ha.sts.1
+        show (writeGraph env fuel W2).deferred = []
+        unfold writeGraph
+        exact (drain_total env fuel _ _ hg3 (by omega)).1
 
 /-- at the end of `serialize` no blank node is left on the deferred stack: every blank node that was labelled
 because of the nesting cap has been described by a `write_tree` of its own (`writeGraph_deferred_done`) -/
-theorem serialize_drained (cfg : Cfg) (quads : List Quad) (w : W) (h : serialize cfg quads = .done w) : Drained w := by
+theorem serialize_drained (cfg : Cfg) (quads : List Quad) (w : W) (h : serialize cfg quads = .done w) :
+    w.deferred = [] := by
   unfold serialize prettify at h
   dsimp only at h
   split at h
   · cases h
   · split at h
-    · cases h; exact Or.inr rfl
+    · cases h; rfl
     · cases h
       apply namedGraphs_drained
       split
-      · exact writeGraph_drained _ _ _
-      · exact Or.inr rfl
+      · exact (writeGraph_deferred_done _ _ _ rfl).1
+      · rfl
+
+/-! ### a SubTree that is reached is written -/
+
+/-- `write_bnode` on an unlabelled blank node that is not a collection head and whose entry in the current graph is a
+`SubTree`: afterwards that entry is `Done` (its properties were written between `[` and `]`), or — at the nesting
+cap — it is on the deferred stack (and `drain_total` then has it written) -/
+theorem writeBnode_subTree_reached (env : Env) (f : Nat) (w : W) (l : Str) (i : Nat) (e : STEntry)
+    (hlist : listsRemove w.lists (.bnode l) = none)
+    (hlab : (isLabelled env.lab (.bnode l) || isLabelled w.labx (.bnode l)) = false)
+    (hfind : w.findSt (.bnode l) = some i) (he : w.sts[i]? = some e) (hst : e.st = .subTree) :
+    DoneAt (writeBnode env (f + 1) w (.bnode l)) i e.s ∨ i ∈ (writeBnode env (f + 1) w (.bnode l)).deferred := by
+  simp only [writeBnode, hlist, hlab, hfind, he, hst, Bool.false_eq_true, ↓reduceIte]
+  split
+  · exact Or.inr (by simp [W.write])
+  · left
+    have hP := (writers_adv env f).2.2.1
+    have a : Adv w (writeProperties env f (({ w with nesting := w.nesting + 1 } : W).writeS "[") e.s) :=
+      ((Adv.of_eq (w := w) (w' := { w with nesting := w.nesting + 1 }) rfl rfl rfl).trans (adv_writeS _ _)).trans (hP _ _)
+    obtain ⟨e', he', _, hs', _⟩ := a.sts.get i e he
+    have := doneAt_setDone (({ (writeProperties env f (({ w with nesting := w.nesting + 1 } : W).writeS "[") e.s) with
+      nesting := (writeProperties env f (({ w with nesting := w.nesting + 1 } : W).writeS "[") e.s).nesting - 1 } : W).writeS "]") i e' he'
+    rw [hs'] at this
+    exact this
 
 end SophiaProofs.Lemmas.PrettyWriter
